@@ -690,6 +690,31 @@ theorem ifTok_restoring (toks : List Tok) (ts : List Tok) (p q : P) (hp : Total 
   · have := hp _ _ _ hr; simp_all
   · exact hq _ _ _ hr hv
 
+theorem peekAt_state (toks : List Tok) (k : Nat) (t : Tok) (g : Guard) (s : St) : (peekAt toks k t g s).2 = s := by
+  unfold peekAt
+  split
+  · unfold lookAt; split <;> rfl
+  · rfl
+
+theorem peekAt_strict_safe (toks : List Tok) (k : Nat) (t : Tok) (s : St) :
+    (peekAt toks k t .strict s).1 ≠ .internal ∧ (peekAt toks k t .strict s).1 ≠ .diverged := by
+  unfold peekAt
+  split
+  · rename_i h
+    simp only [Guard.pass, decide_eq_true_eq] at h
+    unfold lookAt
+    have : toks[s.idx + k]? = some toks[s.idx + k] := List.getElem?_eq_getElem h
+    rw [this]
+    simp
+  · simp
+
+theorem sound_peekAt (toks : List Tok) (k : Nat) (t : Tok) :
+    Sound toks.length (fun _ => 0) (peekAt toks k t .strict) := by
+  intro s hs
+  obtain ⟨h1, h2⟩ := peekAt_strict_safe toks k t s
+  have hst := peekAt_state toks k t .strict s
+  exact ⟨by rw [hst]; exact Nat.le_refl _, by rw [hst]; exact hs, by rw [hst]; simp, h2, h1⟩
+
 theorem keyOf_some_lt {toks : List Tok} {keys : List Tok} {i : Nat} {k : Tok}
     (h : keyOf keys (curr toks i) = some k) : i < toks.length := by
   cases hc : curr toks i with
@@ -779,6 +804,7 @@ theorem bound_mono (p : Comb) : BMono p.bound := by
     intro a c h; have := ih a c h; simp only [Comb.bound]
     exact Nat.mul_le_mul (by omega) this
   | textSeq ts adv => intro a c _; simp [Comb.bound]
+  | peekAt k t g => intro a c _; simp [Comb.bound]
   | restOfChunk => intro a c h; simpa [Comb.bound] using h
   | ifTok ts p q ihp ihq =>
     intro a c h; have := ihp a c h; have := ihq a c h; simp only [Comb.bound]; omega
@@ -887,6 +913,10 @@ theorem run_sound (toks : List Tok) (fuel : Nat) (hf : toks.length < fuel) (p : 
     subst h1
     exact textSeq_consuming toks ts h2
   | restOfChunk => exact ⟨sound_restOfChunk toks, by simp [Comb.consuming]⟩
+  | peekAt k t g =>
+    simp only [Comb.wf, beq_iff_eq] at hw
+    subst hw
+    exact ⟨sound_peekAt toks k t, by simp [Comb.consuming]⟩
   | ifTok ts p q ihp ihq =>
     simp only [Comb.wf, Bool.and_eq_true] at hw
     obtain ⟨sp, _⟩ := ihp hw.1
@@ -1242,6 +1272,13 @@ theorem run_still (toks : List Tok) (fuel : Nat) (p : Comb) (h : p.still = true)
     simp only [Comb.still, Bool.not_eq_true'] at h
     subst h
     exact textSeq_still toks ts
+  | peekAt k t g =>
+    intro s v s' hr
+    have := peekAt_state toks k t g s
+    simp only [run] at hr
+    rw [hr] at this
+    simp only at this
+    rw [this]
   | andThen p q ihp ihq =>
     simp only [Comb.still, Bool.and_eq_true] at h
     exact andThen_still _ _ (ihp h.1) (ihq h.2)
@@ -1276,7 +1313,7 @@ theorem run_total_val (toks : List Tok) (fuel : Nat) (p : Comb) (h : p.total = t
   | wrapped p o ih =>
     simp only [Comb.total] at h
     exact wrapped_total _ _ _ (ih h)
-  | nothing | tok | tokSet | peek | pair | anyTok | advance | fail | tryParse | csv | many | textSeq | tableLoop =>
+  | nothing | tok | tokSet | peek | pair | anyTok | advance | fail | tryParse | csv | many | textSeq | tableLoop | peekAt =>
     simp [Comb.total] at h
   | restOfChunk =>
     intro s v s' hr; simp only [run, restOfChunk] at hr
@@ -1323,6 +1360,13 @@ theorem run_restoring (toks : List Tok) (fuel : Nat) (p : Comb) (h : p.restoring
     · injection hr with _ e2; subst e2; rfl
   | advance | csv | wrapped | many | tableLoop => simp [Comb.restoring] at h
   | textSeq ts adv => exact textSeq_restoring toks ts adv
+  | peekAt k t g =>
+    intro s v s' hr _
+    have := peekAt_state toks k t g s
+    simp only [run] at hr
+    rw [hr] at this
+    simp only at this
+    rw [this]
   | restOfChunk =>
     intro s v s' hr hv; simp only [run, restOfChunk] at hr
     injection hr with e1 _; injection e1 with e1; subst e1; simp [Val.isTruthy] at hv
@@ -1384,6 +1428,7 @@ theorem bound_le_poly (p : Comb) (r : Nat) : p.bound r ≤ p.coeff * (r + 1) ^ p
       _ = p.coeff * (r + 1) ^ (p.depth + 1) := by
         rw [Nat.pow_succ, Nat.mul_comm (r + 1), Nat.mul_assoc]
   | textSeq ts adv => simp [Comb.bound, Comb.coeff, Comb.depth]
+  | peekAt k t g => simp [Comb.bound]
   | restOfChunk => simp [Comb.bound, Comb.coeff, Comb.depth]
   | ifTok ts p q ihp ihq =>
     simp only [Comb.bound, Comb.coeff, Comb.depth]
